@@ -10,7 +10,7 @@ EXTENDS Registry_Hist, IOUtils
 Trace == ndJsonDeserialize(IOEnv.TRACE)
 VARIABLES l, failed, stat
 tvars == <<l, failed, stat, live, conns, localDone, hist>>
-Stat0 == [hists |-> 0, ops |-> 0, probes |-> 0, requests |-> 0, served |-> 0, none |-> 0, multi |-> 0, drops |-> 0, failing |-> 0, crashes |-> 0]
+Stat0 == [hists |-> 0, ops |-> 0, probes |-> 0, requests |-> 0, served |-> 0, none |-> 0, multi |-> 0, drops |-> 0, failing |-> 0, crashes |-> 0, leftover |-> 0]
 TInit == HInit /\ l = 1 /\ failed = {} /\ stat = Stat0
 IsEv(e) == l <= Len(Trace) /\ Trace[l].ev = e
 
@@ -48,7 +48,9 @@ TProbe ==
      IN /\ failed' = failed \cup {<<e.case, l, f>> : f \in bad}
         /\ stat' = [stat EXCEPT !.probes = @ + 1, !.requests = @ + e.n,
                                 !.served = @ + (IF lv # {} THEN 1 ELSE 0), !.none = @ + (IF lv = {} THEN 1 ELSE 0),
-                                !.multi = @ + (IF Cardinality(lv) > 1 THEN 1 ELSE 0)]
+                                !.multi = @ + (IF Cardinality(lv) > 1 THEN 1 ELSE 0),
+                                \* (informational, RegBindings.tla NoLeftover: a route that outlived its method's backends)
+                                !.leftover = @ + (IF lv = {} /\ \E k \in DOMAIN e.outs : e.outs[k].k = "unimplemented" THEN 1 ELSE 0)]
   /\ l' = l + 1 /\ UNCHANGED <<live, conns, localDone, hist>>
 
 TSpec == TInit /\ [][THist \/ TOp \/ TProbe]_tvars
